@@ -78,6 +78,15 @@ def handled_values(f, param: str, program=None):
                 if g is not None and g.fq != f.fq:
                     nodes += list(walk_own(g.node))
     for node in nodes:
+        # a dispatch table indexed by the parameter: {'a': .., 'b': ..}[param] / .get(param)
+        tbl = None
+        if isinstance(node, ast.Subscript) and norm_stmt(node.slice) == param:
+            tbl = node.value
+        if isinstance(node, ast.Call) and isinstance(node.func, ast.Attribute) and node.func.attr == 'get' and node.args \
+                and norm_stmt(node.args[0]) == param:
+            tbl = node.func.value
+        if isinstance(tbl, ast.Dict):
+            out |= {k.value for k in tbl.keys if isinstance(k, ast.Constant)}
         t = node.test if isinstance(node, (ast.If, ast.IfExp)) else None
         if isinstance(t, ast.Compare) and len(t.ops) == 1 and isinstance(t.ops[0], ast.Eq) and \
                 norm_stmt(t.left) == param and isinstance(t.comparators[0], ast.Constant):
@@ -129,6 +138,15 @@ def match_indexing(ctx, rep, clause):
                 isinstance(n.targets[0], ast.Name):
             spectrum_var = n.targets[0].id
             src = norm_stmt(n.value.generators[0].iter)
+    if src is None:
+        # ... or the list is built in place as the `fragments` argument of match_spectra
+        c0 = Canon(f.node)
+        for n in walk_own(f.node):
+            if isinstance(n, ast.Call) and norm_stmt(n.func) == 'match_spectra':
+                arg = n.args[0] if n.args else next((kw.value for kw in n.keywords if kw.arg == 'fragments'), None)
+                arg = c0.resolve(arg) if arg is not None else None
+                if isinstance(arg, (ast.ListComp, ast.GeneratorExp)) and '.mz' in norm_stmt(arg.elt):
+                    src = norm_stmt(arg.generators[0].iter)
     if src is None:
         raise AnalysisError('get_fragment_matches: theoretical m/z list not found')
     k = 0
